@@ -344,6 +344,17 @@ func runRoundTrip(c *core.Ctx, i int, doC01, doC02 bool) {
 	}
 	rc := genRTCase(c, i, vo)
 	c.Eval(1)
+	if rc.Static != nil && rc.Static.Name == "Twin" {
+		// look-alike row types: encoders for the other types that generate the very same schema have been created
+		// (and used) in this process before this one is
+		for _, tw := range statictypes.Twins() {
+			if tw != rc.Static {
+				var sink bytes.Buffer
+				tw.Encode(&sink, []reflect.Value{gen.NewValue(c.Rand(i, 5), tw.IR, gen.ValOpts{Mode: gen.ModeFull, NoInnerNil: true})}, lib.EncodeCfg{Compression: avro.CompressionNull, BlockSize: 0, Plan: lib.FlushPlan{AtEnd: 1}})
+			}
+		}
+		c.Count("look-alike-encoder-sequences", 1)
+	}
 	file, err := rc.encode()
 	if err != nil && rc.MayRefuse {
 		c.Count("optional-kinds-refused", 1)
